@@ -288,6 +288,36 @@ class Gen:
             return True
         doc = self.ref.setdefault(f, {})
         self.touch(j)
+        if rng.random() < 0.08:
+            # a statement whose VALUE is a live view of a document: of the same handle, of another handle on the same
+            # file, of another file; whole assignment, item assignment, update.  First an explicit read of the
+            # viewed document (checked like every read), then the statement; the plain reference takes the value the
+            # view had before the statement.
+            j2 = rng.choice([x for x in self.live if self.fid[x] == f] if rng.random() < 0.7 else self.live)
+            self.touch(j2)
+            doc2 = self.ref.setdefault(self.fid[j2], {})
+            cs = [(p_, c_) for p_, c_ in containers(doc2) if isinstance(c_, dict)]
+            path2, val = rng.choice(cs) if rng.random() < 0.5 else cs[0]
+            val = copy.deepcopy(val)
+            kind = rng.choice(["reset", "reset", "set", "update"])
+            tpath = []
+            if kind != "reset":
+                dcs = [(p_, c_) for p_, c_ in containers(doc) if isinstance(c_, dict)]
+                tpath = (rng.choice(dcs) if rng.random() < 0.4 else dcs[0])[0]
+            op = [kind, val] if kind in ("reset", "update") else ["set", rng.choice(KEYS), val]
+            if self.fid[j2] == f and kind != "set" and len(path2) > len(tpath) and list(path2)[:len(tpath)] == tpath:
+                # reset/update of a container with a view of something INSIDE it: _update works in place on the very
+                # object that is the value (unchanged tree: `doc = {'b': {'b': ..}}; doc = doc.b` leaves `{}`) -
+                # reported to the coordinator, not generated
+                return True
+            if self.fid[j2] == f and tpath[:len(path2)] == list(path2) and (kind == "set" or len(tpath) > len(path2)):
+                # the viewed value would contain the container it is stored into: a plain dict becomes self-referential
+                # there (not a JSON value), so there is no reference to compare with - not generated
+                return True
+            self.items.append(["op", j2, path2, ["get"]])
+            self.items.append(["opl", j, tpath, op, j2, path2, rng.choice(["doc", "document", "copy"])])
+            ref_apply(doc, tpath, op)
+            return True
         path, op = rand_op(rng, doc)
         self.items.append(["op", j, path, op])
         try:
@@ -333,13 +363,17 @@ def is_life(i):
 def strip_life(items):
     """The program without lifecycle items; open-by-id handles (legal only because of them) and their uses go too."""
     byid = {i[1] for i in items if i[0] == "openid"}
-    return [i for i in items if not is_life(i) and i[0] != "openid" and not (i[0] == "op" and i[1] in byid)]
+    out = [i for i in items if not is_life(i) and i[0] != "openid" and not (i[0] in ("op", "opl") and i[1] in byid)
+           and not (i[0] == "opl" and i[4] in byid)]
+    # inside blocks the statement is written with the plain value (its extra loads of the viewed document would
+    # matter for the buffer's flush timing)
+    return [["op"] + i[1:4] if i[0] == "opl" else i for i in out]
 
 
 def closes_blocks(i):
     """re-key and move are kept outside buffered blocks (outside the property's statement; see notes: a buffered
     write followed by an id change / move in the same block is lost on the unchanged tree); remove/init/open are not"""
-    return i[0] in ("rekey", "move")
+    return i[0] in ("rekey", "move", "opl")
 
 
 def random_blocks(rng, items, live):
@@ -369,6 +403,16 @@ def random_blocks(rng, items, live):
 
 
 GOLDEN = [
+    # statements whose value is a live view of the same document (seeded C05-7: `job.doc = job.doc` must not empty it)
+    {"cap0": DEFAULT_CAP, "threads": True, "label": "golden-live-view", "prog": [
+        ["open", 0, 1, PROV_GET_ABS], ["open", 1, 1, PROV_GET_REL], ["op", 0, [], ["reset", {"a": {"k": 1}, "b": [1, 2]}]],
+        ["op", 0, [], ["get"]], ["opl", 0, [], ["reset", {"a": {"k": 1}, "b": [1, 2]}], 0, [], "doc"], ["op", 0, [], ["get"]],
+        ["op", 0, [], ["get"]], ["opl", 1, [], ["reset", {"a": {"k": 1}, "b": [1, 2]}], 0, [], "document"], ["op", 1, [], ["get"]],
+        ["op", 0, [], ["get"]], ["opl", 0, [], ["reset", {"a": {"k": 1}, "b": [1, 2]}], 0, [], "copy"], ["op", 0, [], ["get"]],
+        ["op", 0, ["a"], ["get"]], ["opl", 0, [], ["set", "a", {"k": 1}], 0, ["a"], "doc"], ["op", 0, [], ["get"]],
+        ["op", 0, [], ["get"]], ["opl", 0, [], ["update", {"a": {"k": 1}, "b": [1, 2]}], 0, [], "doc"], ["op", 0, [], ["get"]],
+        ["open", 2, 0, PROV_GET_ABS], ["op", 0, [], ["get"]], ["opl", 2, [], ["reset", {"a": {"k": 1}, "b": [1, 2]}], 0, [], "doc"],
+        ["op", 2, [], ["get"]]]},
     # lifecycle between document operations (seeded C05-8 / C05-9): move to the second project; remove + reopen by the
     # cached id; re-key + reopen by the former id - each followed by reads/writes through old and fresh handles
     {"cap0": DEFAULT_CAP, "threads": True, "label": "golden-move", "prog": [
@@ -523,10 +567,14 @@ def _typed_prog(prog):
 def typed_item(it):
     if it[0] == "op":
         return ["op", it[1], it[2], [it[3][0]] + [typed(x) for x in it[3][1:]]]
+    if it[0] == "opl":
+        return ["opl", it[1], it[2], [it[3][0]] + [typed(x) for x in it[3][1:]]] + list(it[4:])
     return it
 
 
 def untyped_item(it):
+    if it[0] == "opl":
+        return ["opl", it[1], it[2], [it[3][0]] + [_untyped_arg(it[3][0], n, x) for n, x in enumerate(it[3][1:])]] + list(it[4:])
     if it[0] == "op":
         return ["op", it[1], it[2], [it[3][0]] + [_untyped_arg(it[3][0], n, x) for n, x in enumerate(it[3][1:])]]
     return it
@@ -594,7 +642,9 @@ def coq_item(it):
         return "(JOpen %s %s %s)" % (coq_N(it[1]), coq_N(it[3]), coq_N(it[4]))
     if k == "move":
         return "(JMove %s)" % coq_N(it[1])
-    if k == "op":
+    if k in ("op", "opl"):
+        # "opl": the same operation, written in the program with a LIVE view of a document as its value (the model
+        # and the reference take the value that view had before the statement - the literal in the item)
         return "(JOp %s %s %s)" % (coq_N(it[1]), coq_path(it[2]), coq_dop(it[3]))
     if k == "rekey":
         return "(JRekey %s %s)" % (coq_N(it[1]), coq_N(it[2]))
@@ -725,6 +775,40 @@ def _misplaced(root):
     return n
 
 
+def run_live(objs, it):
+    """`job.doc = other.doc`, `d[k] = view`, `d.update(view)`: the value is a live view of a document (of the same
+    or another handle), possibly reached through copy.copy(job).  If the view does not hold the literal of the item
+    (the reference diverged in a known-finding program) the statement is executed with the literal instead."""
+    import copy as _copy
+    _, j, path, op, j2, path2, spelling = it
+    src = objs[j2]
+    if spelling == "copy" and hasattr(src, "statepoint"):
+        src = _copy.copy(src)
+    view = src.document
+    for p in path2:
+        view = view[p]
+    # what the view holds NOW (the statement itself loads it as well; outside blocks a load is idempotent)
+    snap = view() if hasattr(view, "_to_base") else view
+    lit = op[1] if op[0] in ("reset", "update") else op[2]
+    value = view if to_plain(snap) == to_plain(lit) and typed(to_plain(snap)) == typed(to_plain(lit)) else lit
+    o = objs[j]
+    if op[0] == "reset" and not path:
+        if spelling == "document":
+            o.document = value
+        else:
+            o.doc = value
+        return
+    t = o.document
+    for p in path:
+        t = t[p]
+    if op[0] == "reset":
+        t.reset(value)
+    elif op[0] == "update":
+        t.update(value)
+    else:
+        t[op[1]] = value
+
+
 def observe(signac, root, ids):
     """Both projects: file ids 0 / n for the first (root), 10 / 10 + n for the second (root + '2')."""
     files, dirs, stray = [], [], _misplaced(root)
@@ -804,6 +888,8 @@ def run_case(desc):
                         fid_of[it[1]] = fid_of[it[1]] + 10
                     elif k == "chdir":
                         os.chdir(cwds[it[1]])
+                    elif k == "opl":
+                        run_live(objs, it)
                     elif k == "op":
                         o = objs[it[1]]
                         if it[3][0] == "reset" and not it[2] and n % 2 == 0:
@@ -854,12 +940,12 @@ def run_case(desc):
             _reset_backend(signac, DEFAULT_CAP)
             JD.enable_multithreading()
             os.chdir(cwd0)
-    values = [it[3][1:] for it in prog if it[0] == "op"] + [[o["ret"][1]] for o in obs if o["ret"][0] == "ok"] + \
+    values = [it[3][1:] for it in prog if it[0] in ("op", "opl")] + [[o["ret"][1]] for o in obs if o["ret"][0] == "ok"] + \
              [[v for _, v in o["files"]] for o in obs]
     coq = "{| c5_ftab := %s; c5_cap0 := %s; c5_prog := %s; c5_obs := %s |}" % (
         coq_ftab(values), coq_N(desc["cap0"]), coq_list([coq_item(i) for i in prog], "jitem"),
         coq_list([coq_obs(o) for o in obs], "obs5"))
-    muts = [i for i in prog if i[0] == "op" and i[3][0] != "get"]
+    muts = [i for i in prog if i[0] in ("op", "opl") and i[3][0] != "get"]
     perfile = {}
     for i in prog:
         if i[0] == "open":
